@@ -132,8 +132,9 @@ func c18One(c *ctx, rn c18Run) {
 	httpA, httpsA := fmt.Sprintf("127.0.0.1:%d", freePort()), fmt.Sprintf("127.0.0.1:%d", freePort())
 	tcpA, sniA, grpcA := fmt.Sprintf("127.0.0.1:%d", freePort()), fmt.Sprintf("127.0.0.1:%d", freePort()), fmt.Sprintf("127.0.0.1:%d", freePort())
 	addr := fmt.Sprintf("%s,%s;cs=cs1", httpA, httpsA)
+	dynA := fmt.Sprintf("127.0.0.1:%d", freePort()) // served by the tcp-dynamic listener (refresh 200ms)
 	if !rn.NoTCP {
-		addr += fmt.Sprintf(",%s;proto=tcp,%s;proto=tcp+sni", tcpA, sniA)
+		addr += fmt.Sprintf(",%s;proto=tcp,%s;proto=tcp+sni,127.0.0.1:%d;proto=tcp-dynamic;refresh=200ms", tcpA, sniA, freePort())
 	}
 	if !rn.NoGRPC {
 		addr += fmt.Sprintf(",%s;proto=grpc", grpcA)
@@ -150,6 +151,7 @@ func c18One(c *ctx, rn c18Run) {
 		fmt.Sprintf("route add web web.test/ http://%s/", up.Addr()),
 		fmt.Sprintf("route add tcpsvc :%s tcp://%s opts \"proto=tcp\"", tcpPort, eln.Addr()),
 		fmt.Sprintf("route add snisvc sni.test/ tcp://%s opts \"proto=tcp\"", eln.Addr()),
+		fmt.Sprintf("route add dynsvc %s tcp://%s", dynA, eln.Addr()),
 	}
 	rg.setManual(strings.Join(lines, "\n"))
 	rg.agent.Update(func(nodes map[string]*fakeconsul.Node, insts map[string]*fakeconsul.Instance) {
@@ -162,7 +164,7 @@ func c18One(c *ctx, rn c18Run) {
 	}
 	listeners := []string{httpA, httpsA}
 	if !rn.NoTCP {
-		listeners = append(listeners, tcpA, sniA)
+		listeners = append(listeners, tcpA, sniA, dynA)
 	}
 	if !rn.NoGRPC {
 		listeners = append(listeners, grpcA)
@@ -171,6 +173,12 @@ func c18One(c *ctx, rn c18Run) {
 		if !fabioproc.WaitListening(a, 20*time.Second) {
 			c.R.Inconcl("%s: listener %s did not come up", desc, a)
 			return
+		}
+	}
+	if !rn.NoGRPC {
+		// a client that has connected to the gRPC listener and says nothing (no HTTP/2 preface): open-ended work too
+		if sc, err := net.DialTimeout("tcp", grpcA, 5*time.Second); err == nil {
+			defer sc.Close()
 		}
 	}
 	var items []*c18Item
@@ -438,7 +446,7 @@ func c18One(c *ctx, rn c18Run) {
 				switch a {
 				case httpA:
 					fmt.Fprintf(pc, "GET /probe HTTP/1.1\r\nHost: web.test\r\nConnection: close\r\n\r\n")
-				case tcpA:
+				case tcpA, dynA:
 					pc.Write([]byte("probe\n"))
 				case sniA:
 					pc.Write(c09Hello("sni.test"))
